@@ -599,6 +599,20 @@ fn build_world(s: &Setup) -> H {
                 let (i, v) = s.stores[k][j];
                 st.insert(cur[i as usize], <C as HV>::mk(i, v)).expect("setup: re-insert");
             }
+            // ... and the last thing that happened to the store: one entry was overwritten (an exclusive look-up), removed
+            // and inserted again, so whatever the storage remembers about its latest exclusive access is about a slot
+            // that has moved since
+            if s.stores[k].len() >= 2 {
+                let j = if scramble_key(k, 4242) % 2 == 0 {
+                    (0..s.stores[k].len()).min_by_key(|&j| s.stores[k][j].0).unwrap()
+                } else {
+                    order[0]
+                };
+                let (i, v) = s.stores[k][j];
+                st.insert(cur[i as usize], <C as HV>::mk(i, v ^ 0x0f)).expect("setup: overwrite");
+                if st.remove(cur[i as usize]).is_none() { die("setup: remove after overwrite found nothing"); }
+                st.insert(cur[i as usize], <C as HV>::mk(i, v)).expect("setup: insert after overwrite");
+            }
         });
     }
     let mut cs14 = ChangeSet::new();
@@ -608,8 +622,18 @@ fn build_world(s: &Setup) -> H {
     cs14.clear();
     for &j in scrambled(15, &s.stores[15]).iter().take(2) { let (i, v) = s.stores[15][j]; cs15.add(cur[i as usize], v ^ 0x33); }
     cs15.clear();
-    for &j in &scrambled(14, &s.stores[14]) { let (i, v) = s.stores[14][j]; cs14.add(cur[i as usize], v); }
-    for &j in &scrambled(15, &s.stores[15]) { let (i, v) = s.stores[15][j]; cs15.add(cur[i as usize], v); }
+    // the three ways of filling a change set: `add` one by one, `extend` with a whole batch, `collect`
+    {
+        let order = scrambled(14, &s.stores[14]);
+        let (head, tail) = order.split_at(order.len() / 2);
+        for &j in head { let (i, v) = s.stores[14][j]; cs14.add(cur[i as usize], v); }
+        cs14.extend(tail.iter().map(|&j| { let (i, v) = s.stores[14][j]; (cur[i as usize], v) }));
+    }
+    if s.stores[15].len() % 2 == 0 {
+        cs15.extend(scrambled(15, &s.stores[15]).iter().map(|&j| { let (i, v) = s.stores[15][j]; (cur[i as usize], v) }));
+    } else {
+        cs15 = scrambled(15, &s.stores[15]).iter().map(|&j| { let (i, v) = s.stores[15][j]; (cur[i as usize], v) }).collect();
+    }
     // pending deletions: `Entities::delete` (= `Allocator::kill_atomic`) marks the entity in the `killed` set;
     // until the next `maintain()` it stays alive, keeps its components and is a member of every join mask.
     // NO maintain afterwards. (That the entity is still *yielded by the joins* is what the joins under test
